@@ -140,3 +140,498 @@ Qed.
 Corollary pwl_int_all_mirror_wf : forall ts te xs y1 y2, wf_pwl (xs, y1, y2) ->
   pwl_int_all ROps (rev (map (mir ts te) xs)) (rev y2) (rev y1) = pwl_int_all ROps xs y1 y2.
 Proof. intros ts te xs y1 y2 (_ & H1 & H2). apply pwl_int_all_mirror; assumption. Qed.
+
+(* ================================================================== *)
+(* 1./2. SPIKE specification under an affine change of the time axis   *)
+(*       x -> k * x + c   (k > 0): shift is k = 1, scale is c = 0      *)
+
+Definition af (k c : R) : R -> R := fun x => k * x + c.
+
+Lemma map_pair_eta {A} (l : list (A * A)) : map (fun p => (fst p, snd p)) l = l.
+Proof. induction l as [|[a b] l IH]; [reflexivity|]. cbn [map fst snd]. rewrite IH. reflexivity. Qed.
+
+Lemma pieces_map (f : R -> R) (bs : list R) :
+  pieces (map f bs) = map (fun p => (f (fst p), f (snd p))) (pieces bs).
+Proof.
+  induction bs as [|a r IH]; [reflexivity|].
+  destruct r as [|b r']; [reflexivity|].
+  change (pieces (a :: b :: r')) with ((a, b) :: pieces (b :: r')).
+  cbn [map] in *. change (pieces (f a :: f b :: map f r')) with ((f a, f b) :: pieces (f b :: map f r')).
+  rewrite IH. reflexivity.
+Qed.
+
+Section Affine.
+  Context (k c : R) (Hk : 0 < k).
+  Local Notation f := (af k c).
+
+  Lemma Rltb_af a b : Rltb (f a) (f b) = Rltb a b.
+  Proof. unfold af. destruct (Rltb_spec (k * a + c) (k * b + c)), (Rltb_spec a b); try reflexivity; nra. Qed.
+  Lemma Reqb_af a b : Reqb (f a) (f b) = Reqb a b.
+  Proof. unfold af. destruct (Reqb_spec (k * a + c) (k * b + c)), (Reqb_spec a b); try reflexivity; exfalso; nra. Qed.
+  Lemma af_sub a b : f a - f b = k * (a - b).
+  Proof. unfold af. lra. Qed.
+  Lemma Rmax_af a b : Rmax (f a) (f b) = f (Rmax a b).
+  Proof. unfold af, Rmax. destruct (Rle_dec a b), (Rle_dec (k * a + c) (k * b + c)); try reflexivity; nra. Qed.
+  Lemma Rmin_af a b : Rmin (f a) (f b) = f (Rmin a b).
+  Proof. unfold af, Rmin. destruct (Rle_dec a b), (Rle_dec (k * a + c) (k * b + c)); try reflexivity; nra. Qed.
+  Lemma Rmax_k a b : Rmax (k * a) (k * b) = k * Rmax a b.
+  Proof. unfold Rmax. destruct (Rle_dec a b), (Rle_dec (k * a) (k * b)); try reflexivity; nra. Qed.
+  Lemma Rmin_k a b : Rmin (k * a) (k * b) = k * Rmin a b.
+  Proof. unfold Rmin. destruct (Rle_dec a b), (Rle_dec (k * a) (k * b)); try reflexivity; nra. Qed.
+  Lemma Rabs_k a : Rabs (k * a) = k * Rabs a.
+  Proof. rewrite Rabs_mult, (Rabs_pos_eq k) by lra. reflexivity. Qed.
+
+  Lemma prev_of_af t u : forall acc,
+    prev_of ROps (f t) (map f u) (option_map f acc) = option_map f (prev_of ROps t u acc).
+  Proof.
+    induction u as [|x r IH]; intros acc; [reflexivity|].
+    cbn [map prev_of]. rewrite !R_nleb, Rltb_af.
+    destruct (Rltb t x); cbn [negb]; [reflexivity|]. apply (IH (Some x)).
+  Qed.
+
+  Lemma prev_of_af0 t u :
+    prev_of ROps (f t) (map f u) None = option_map f (prev_of ROps t u None).
+  Proof. exact (prev_of_af t u None). Qed.
+
+  Lemma next_of_af t u : next_of ROps (f t) (map f u) = option_map f (next_of ROps t u).
+  Proof.
+    induction u as [|x r IH]; [reflexivity|].
+    cbn [map next_of nltb ROps]. rewrite Rltb_af. destruct (Rltb t x); [reflexivity | exact IH].
+  Qed.
+
+  Lemma filter_af (q q' : R -> bool) l : (forall x, q' (f x) = q x) ->
+    filter q' (map f l) = map f (filter q l).
+  Proof.
+    intros E. induction l as [|a l IH]; [reflexivity|].
+    cbn [map filter]. rewrite E. destruct (q a); cbn [map]; rewrite IH; reflexivity.
+  Qed.
+
+  Lemma before_af p u : before ROps (f p) (map f u) = option_map f (before ROps p u).
+  Proof.
+    unfold before. rewrite (filter_af (fun x => nltb ROps x p)).
+    - apply prev_of_af0.
+    - intros x. cbn [nltb ROps]. apply Rltb_af.
+  Qed.
+
+  Lemma after_af p u : after ROps (f p) (map f u) = option_map f (after ROps p u).
+  Proof. apply next_of_af. Qed.
+
+  Lemma isi_len_at_af ts te u t :
+    isi_len_at ROps (f ts) (f te) (map f u) (f t) = k * isi_len_at ROps ts te u t.
+  Proof.
+    unfold isi_len_at. rewrite prev_of_af0, next_of_af.
+    destruct (prev_of ROps t u None) as [p|], (next_of ROps t u) as [n|]; cbn [option_map].
+    - cbn [nsub ROps]. apply af_sub.
+    - rewrite before_af. destruct (before ROps p u) as [p0|]; cbn [option_map].
+      + rewrite !R_nmax. cbn [nsub ROps]. rewrite !af_sub. apply Rmax_k.
+      + cbn [nsub ROps]. apply af_sub.
+    - rewrite after_af. destruct (after ROps n u) as [n2|]; cbn [option_map].
+      + rewrite !R_nmax. cbn [nsub ROps]. rewrite !af_sub. apply Rmax_k.
+      + cbn [nsub ROps]. apply af_sub.
+    - cbn [n0 ROps]. lra.
+  Qed.
+
+  Lemma aux_of_af ts te u :
+    aux_of ROps (f ts) (f te) (map f u)
+    = (f (fst (aux_of ROps ts te u)), f (snd (aux_of ROps ts te u))).
+  Proof.
+    unfold aux_of.
+    destruct u as [|x0 [|x1 r]]; cbn [map fst snd]; try reflexivity.
+    change (f x0 :: f x1 :: map f r) with (map f (x0 :: x1 :: r)). rewrite <- map_rev.
+    destruct (rev (x0 :: x1 :: r)) as [|a [|b r']]; cbn [map fst snd]; try reflexivity.
+    rewrite !R_nmin, !R_nmax. cbn [nadd nsub ROps].
+    replace (f x0 - (f x1 - f x0)) with (f (x0 - (x1 - x0))) by (unfold af; lra).
+    replace (f a + (f a - f b)) with (f (a + (a - b))) by (unfold af; lra).
+    rewrite Rmin_af, Rmax_af. reflexivity.
+  Qed.
+
+  Lemma fmin_af x l d : fmin (f x) (map f l) (k * d) = k * fmin x l d.
+  Proof.
+    revert d; induction l as [|y l IH]; intros d; [reflexivity|].
+    cbn [map]. rewrite !fmin_cons, <- IH. f_equal.
+    rewrite af_sub, Rabs_k. apply Rmin_k.
+  Qed.
+
+  Lemma nearest_af a0 a1 w x :
+    nearest ROps (f a0, f a1) (map f w) (f x) = k * nearest ROps (a0, a1) w x.
+  Proof.
+    rewrite !nearest_R. change [f a1] with (map f [a1]). rewrite <- map_app.
+    rewrite af_sub, Rabs_k. apply fmin_af.
+  Qed.
+
+  Lemma contrib_af ts te u w tm t :
+    contrib ROps (f ts) (f te) (map f u) (map f w) (f tm) (f t)
+    = (k * fst (contrib ROps ts te u w tm t), k * snd (contrib ROps ts te u w tm t)).
+  Proof.
+    unfold contrib. cbv zeta. rewrite isi_len_at_af, aux_of_af, prev_of_af0, next_of_af.
+    destruct (aux_of ROps ts te w) as [a0 a1]. cbn [fst snd].
+    destruct (prev_of ROps tm u None) as [p|], (next_of ROps tm u) as [n|]; cbn [option_map fst snd].
+    - f_equal. rewrite !nearest_af. cbn [nadd nsub nmul ndiv ROps]. rewrite !af_sub.
+      set (A := nearest ROps (a0, a1) w p). set (B := nearest ROps (a0, a1) w n).
+      replace (k * A * (k * (n - t)) + k * B * (k * (t - p)))
+        with (k * (k * (A * (n - t) + B * (t - p)))) by ring.
+      rewrite Rdiv_scale by lra. unfold Rdiv. ring.
+    - rewrite nearest_af. reflexivity.
+    - rewrite nearest_af. reflexivity.
+    - cbn [n0 ROps]. f_equal. lra.
+  Qed.
+
+  Lemma spike_at_af ts te m ri u1 u2 tm t :
+    spike_at ROps (f ts) (f te) (k * m) ri (map f u1) (map f u2) (f tm) (f t)
+    = spike_at ROps ts te m ri u1 u2 tm t.
+  Proof.
+    rewrite !spike_at_eq_dist_at_t, !contrib_af.
+    destruct (contrib ROps ts te u1 u2 tm t) as [c1 i1].
+    destruct (contrib ROps ts te u2 u1 tm t) as [c2 i2]. cbn [fst snd].
+    apply dist_at_t_scale; exact Hk.
+  Qed.
+
+  Lemma insert_u_af x l : insert_u ROps (f x) (map f l) = map f (insert_u ROps x l).
+  Proof.
+    induction l as [|a l IH]; [reflexivity|].
+    cbn [map insert_u nltb neqb ROps]. rewrite Rltb_af, Reqb_af.
+    destruct (Rltb x a); [reflexivity|]. destruct (Reqb x a); [reflexivity|].
+    cbn [map]. rewrite IH. reflexivity.
+  Qed.
+
+  Lemma sort_unique_af l : sort_unique ROps (map f l) = map f (sort_unique ROps l).
+  Proof.
+    induction l as [|a l IH]; [reflexivity|].
+    cbn [map sort_unique fold_right]. unfold sort_unique in IH. rewrite IH. apply insert_u_af.
+  Qed.
+
+  Lemma breaks_af ts te s1 s2 :
+    breaks ROps (f ts) (f te) (map f s1) (map f s2) = map f (breaks ROps ts te s1 s2).
+  Proof.
+    unfold breaks. cbn [map]. rewrite map_app. cbn [map]. f_equal. f_equal.
+    rewrite <- map_app.
+    rewrite (filter_af (fun x => nltb ROps ts x && nltb ROps x te)).
+    - apply sort_unique_af.
+    - intros x. cbn [nltb ROps]. rewrite !Rltb_af. reflexivity.
+  Qed.
+
+  Lemma mid_af a b : mid ROps (f a, f b) = f (mid ROps (a, b)).
+  Proof. unfold mid. rewrite R_n2. cbn [fst snd nadd ndiv ROps]. unfold af. lra. Qed.
+
+  Lemma eff_af ts te s : eff (f ts) (f te) (map f s) = map f (eff ts te s).
+  Proof. destruct s; reflexivity. Qed.
+
+  Lemma valid_af ts te s : valid ts te s -> valid (f ts) (f te) (map f s).
+  Proof.
+    intros (Hlt & S & F). split; [unfold af; nra|]. split.
+    - induction S as [|a l S IH Fa]; [apply ssorted_nil|].
+      cbn [map]. apply ssorted_cons; [apply IH; inversion F; assumption|].
+      rewrite Forall_forall in *. intros y Hy. apply in_map_iff in Hy as (z & <- & Hz).
+      specialize (Fa _ Hz). unfold af. nra.
+    - rewrite Forall_forall in *. intros y Hy. apply in_map_iff in Hy as (z & <- & Hz).
+      specialize (F _ Hz). unfold af. nra.
+  Qed.
+
+  Theorem spike_spec_af : forall s1 s2 ts te m ri,
+    spike_spec ROps (map f s1) (map f s2) (f ts) (f te) (k * m) ri
+    = (map f (fst (fst (spike_spec ROps s1 s2 ts te m ri))),
+       snd (fst (spike_spec ROps s1 s2 ts te m ri)),
+       snd (spike_spec ROps s1 s2 ts te m ri)).
+  Proof.
+    intros s1 s2 ts te m ri. unfold spike_spec. cbv zeta. cbn [fst snd].
+    rewrite breaks_af, !eff_af, pieces_map, !map_map.
+    f_equal; [f_equal|]; apply map_ext; intros [a b]; cbn [fst snd];
+      rewrite mid_af; apply spike_at_af.
+  Qed.
+
+  Theorem spike_profile_af : forall s1 s2 ts te m ri, valid ts te s1 -> valid ts te s2 ->
+    spike_profile_py ROps (eff (f ts) (f te) (map f s1)) (eff (f ts) (f te) (map f s2)) (f ts) (f te) (k * m) ri
+    = (map f (fst (fst (spike_profile_py ROps (eff ts te s1) (eff ts te s2) ts te m ri))),
+       snd (fst (spike_profile_py ROps (eff ts te s1) (eff ts te s2) ts te m ri)),
+       snd (spike_profile_py ROps (eff ts te s1) (eff ts te s2) ts te m ri)).
+  Proof.
+    intros s1 s2 ts te m ri V1 V2.
+    rewrite (spike_profile_spec _ _ _ _ (k * m) ri (valid_af ts te s1 V1) (valid_af ts te s2 V2)).
+    rewrite (spike_profile_spec _ _ _ _ m ri V1 V2).
+    apply spike_spec_af.
+  Qed.
+End Affine.
+
+Lemma af_sh c x : af 1 c x = sh c x.
+Proof. unfold af, sh. lra. Qed.
+Lemma af_sc k x : af k 0 x = sc k x.
+Proof. unfold af, sc. lra. Qed.
+Lemma map_af_sh c l : map (af 1 c) l = map (sh c) l.
+Proof. apply map_ext. apply af_sh. Qed.
+Lemma map_af_sc k l : map (af k 0) l = map (sc k) l.
+Proof. apply map_ext. apply af_sc. Qed.
+
+(* 1. validity is not needed *)
+Theorem spike_spec_shift : forall c s1 s2 ts te m ri,
+  spike_spec ROps (map (sh c) s1) (map (sh c) s2) (ts + c) (te + c) m ri
+  = (map (sh c) (fst (fst (spike_spec ROps s1 s2 ts te m ri))),
+     snd (fst (spike_spec ROps s1 s2 ts te m ri)),
+     snd (spike_spec ROps s1 s2 ts te m ri)).
+Proof.
+  intros c s1 s2 ts te m ri.
+  pose proof (spike_spec_af 1 c Rlt_0_1 s1 s2 ts te m ri) as H.
+  rewrite !map_af_sh, !af_sh in H. unfold sh at 3 4 in H.
+  replace (1 * m) with m in H by lra. exact H.
+Qed.
+
+(* 2. validity is not needed *)
+Theorem spike_spec_scale : forall k s1 s2 ts te m ri, 0 < k ->
+  spike_spec ROps (map (sc k) s1) (map (sc k) s2) (k * ts) (k * te) (k * m) ri
+  = (map (sc k) (fst (fst (spike_spec ROps s1 s2 ts te m ri))),
+     snd (fst (spike_spec ROps s1 s2 ts te m ri)),
+     snd (spike_spec ROps s1 s2 ts te m ri)).
+Proof.
+  intros k s1 s2 ts te m ri Hk.
+  pose proof (spike_spec_af k 0 Hk s1 s2 ts te m ri) as H.
+  rewrite !map_af_sc, !af_sc in H. exact H.
+Qed.
+
+Lemma valid_shift c ts te s : valid ts te s -> valid (ts + c) (te + c) (map (sh c) s).
+Proof.
+  intros V. pose proof (valid_af 1 c Rlt_0_1 ts te s V) as H.
+  rewrite map_af_sh, !af_sh in H. exact H.
+Qed.
+
+Lemma valid_scale k ts te s : 0 < k -> valid ts te s -> valid (k * ts) (k * te) (map (sc k) s).
+Proof.
+  intros Hk V. pose proof (valid_af k 0 Hk ts te s V) as H.
+  rewrite map_af_sc, !af_sc in H. exact H.
+Qed.
+
+Lemma eff_shift c ts te s : eff (ts + c) (te + c) (map (sh c) s) = map (sh c) (eff ts te s).
+Proof. destruct s; reflexivity. Qed.
+Lemma eff_scale k ts te s : eff (k * ts) (k * te) (map (sc k) s) = map (sc k) (eff ts te s).
+Proof. destruct s; reflexivity. Qed.
+
+(* 3. the model, on valid trains *)
+Theorem spike_profile_shift : forall c s1 s2 ts te m ri, valid ts te s1 -> valid ts te s2 ->
+  spike_profile_py ROps (eff (ts + c) (te + c) (map (sh c) s1)) (eff (ts + c) (te + c) (map (sh c) s2))
+                   (ts + c) (te + c) m ri
+  = (map (sh c) (fst (fst (spike_profile_py ROps (eff ts te s1) (eff ts te s2) ts te m ri))),
+     snd (fst (spike_profile_py ROps (eff ts te s1) (eff ts te s2) ts te m ri)),
+     snd (spike_profile_py ROps (eff ts te s1) (eff ts te s2) ts te m ri)).
+Proof.
+  intros c s1 s2 ts te m ri V1 V2.
+  rewrite (spike_profile_spec _ _ _ _ m ri (valid_shift c ts te s1 V1) (valid_shift c ts te s2 V2)).
+  rewrite (spike_profile_spec _ _ _ _ m ri V1 V2).
+  apply spike_spec_shift.
+Qed.
+
+Theorem spike_profile_scale : forall k s1 s2 ts te m ri, 0 < k -> valid ts te s1 -> valid ts te s2 ->
+  spike_profile_py ROps (eff (k * ts) (k * te) (map (sc k) s1)) (eff (k * ts) (k * te) (map (sc k) s2))
+                   (k * ts) (k * te) (k * m) ri
+  = (map (sc k) (fst (fst (spike_profile_py ROps (eff ts te s1) (eff ts te s2) ts te m ri))),
+     snd (fst (spike_profile_py ROps (eff ts te s1) (eff ts te s2) ts te m ri)),
+     snd (spike_profile_py ROps (eff ts te s1) (eff ts te s2) ts te m ri)).
+Proof.
+  intros k s1 s2 ts te m ri Hk V1 V2.
+  rewrite (spike_profile_spec _ _ _ _ (k * m) ri (valid_scale k ts te s1 Hk V1) (valid_scale k ts te s2 Hk V2)).
+  rewrite (spike_profile_spec _ _ _ _ m ri V1 V2).
+  apply spike_spec_scale; exact Hk.
+Qed.
+
+(* the same with the edge-completed trains transformed (eff commutes with the map) *)
+Corollary spike_profile_shift_eff : forall c s1 s2 ts te m ri, valid ts te s1 -> valid ts te s2 ->
+  spike_profile_py ROps (map (sh c) (eff ts te s1)) (map (sh c) (eff ts te s2)) (ts + c) (te + c) m ri
+  = (map (sh c) (fst (fst (spike_profile_py ROps (eff ts te s1) (eff ts te s2) ts te m ri))),
+     snd (fst (spike_profile_py ROps (eff ts te s1) (eff ts te s2) ts te m ri)),
+     snd (spike_profile_py ROps (eff ts te s1) (eff ts te s2) ts te m ri)).
+Proof. intros. rewrite <- !eff_shift. apply spike_profile_shift; assumption. Qed.
+
+Corollary spike_profile_scale_eff : forall k s1 s2 ts te m ri, 0 < k -> valid ts te s1 -> valid ts te s2 ->
+  spike_profile_py ROps (map (sc k) (eff ts te s1)) (map (sc k) (eff ts te s2)) (k * ts) (k * te) (k * m) ri
+  = (map (sc k) (fst (fst (spike_profile_py ROps (eff ts te s1) (eff ts te s2) ts te m ri))),
+     snd (fst (spike_profile_py ROps (eff ts te s1) (eff ts te s2) ts te m ri)),
+     snd (spike_profile_py ROps (eff ts te s1) (eff ts te s2) ts te m ri)).
+Proof. intros. rewrite <- !eff_scale. apply spike_profile_scale; assumption. Qed.
+
+(* ================================================================== *)
+(* 4. mirror symmetry of the SPIKE specification                       *)
+
+Lemma fmin_rev x l : forall d, fmin x (rev l) d = fmin x l d.
+Proof.
+  induction l as [|a l IH]; intros d; [reflexivity|].
+  cbn [rev]. rewrite fmin_app, IH, fmin_cons, fmin_nil, fmin_cons, fmin_min. reflexivity.
+Qed.
+
+Section MirrorSpike.
+  Context (ts te : R).
+  Local Notation mr := (mir ts te).
+  Local Notation mtr := (mirror_train ts te).
+
+  Lemma Rabs_mir x y : Rabs (mr x - mr y) = Rabs (x - y).
+  Proof. unfold mir. replace (ts + te - x - (ts + te - y)) with (- (x - y)) by lra. apply Rabs_Ropp. Qed.
+
+  Lemma fmin_mir x l : forall d, fmin (mr x) (map mr l) d = fmin x l d.
+  Proof.
+    induction l as [|a l IH]; intros d; [reflexivity|].
+    cbn [map]. rewrite !fmin_cons, IH, Rabs_mir. reflexivity.
+  Qed.
+
+  (* the auxiliary spikes are exchanged *)
+  Lemma nearest_mirror a0 a1 w x :
+    nearest ROps (mr a1, mr a0) (mtr w) (mr x) = nearest ROps (a0, a1) w x.
+  Proof.
+    rewrite !nearest_R. unfold mirror_train.
+    rewrite !fmin_app, fmin_rev, fmin_mir, !fmin_cons, !fmin_nil, !Rabs_mir.
+    rewrite <- !fmin_min. f_equal. apply Rmin_comm.
+  Qed.
+
+  Lemma aux_of_mirror w :
+    aux_of ROps ts te (mtr w) = (mr (snd (aux_of ROps ts te w)), mr (fst (aux_of ROps ts te w))).
+  Proof.
+    assert (Hd : (mr te, mr ts) = (ts, te)) by (rewrite mir_te, mir_ts; reflexivity).
+    unfold aux_of.
+    destruct w as [|x0 [|x1 r]]; cbn [fst snd].
+    - cbn. rewrite mir_te, mir_ts. reflexivity.
+    - cbn. rewrite mir_te, mir_ts. reflexivity.
+    - destruct (rev_two x0 x1 r) as (a & b & l & Er). rewrite Er. cbn [fst snd].
+      assert (Em : mtr (x0 :: x1 :: r) = mr a :: mr b :: map mr l).
+      { unfold mirror_train. rewrite <- map_rev, Er. reflexivity. }
+      assert (Erm : rev (mtr (x0 :: x1 :: r)) = mr x0 :: mr x1 :: map mr r).
+      { unfold mirror_train. rewrite rev_involutive. reflexivity. }
+      rewrite Em. rewrite <- Em, Erm.
+      rewrite !R_nmin, !R_nmax. cbn [nadd nsub ROps].
+      unfold mir, Rmin, Rmax.
+      destruct (Rle_dec ts (ts + te - a - (ts + te - b - (ts + te - a)))),
+               (Rle_dec te (a + (a - b))),
+               (Rle_dec te (ts + te - x0 + (ts + te - x0 - (ts + te - x1)))),
+               (Rle_dec ts (x0 - (x1 - x0))); f_equal; lra.
+  Qed.
+
+  Lemma prev_next_mirror u tm : ssorted u -> ~ In tm u ->
+    prev_of ROps (mr tm) (mtr u) None = option_map mr (next_of ROps tm u) /\
+    next_of ROps (mr tm) (mtr u) = option_map mr (prev_of ROps tm u None).
+  Proof.
+    intros S NI. destruct (Lem_Transform.split_at tm u S NI) as (l1 & l2 & E & F1 & F2).
+    assert (Em : mtr u = rev (map mr l2) ++ rev (map mr l1)).
+    { unfold mirror_train. rewrite E, map_app, rev_app_distr. reflexivity. }
+    assert (L1 : forall x, In x l1 -> x <= tm).
+    { intros x Hx. rewrite Forall_forall in F1. specialize (F1 _ Hx). lra. }
+    assert (L2 : forall x, In x (rev (map mr l2)) -> x <= mr tm).
+    { intros x Hx. apply in_rev in Hx. apply In_map_mir in Hx. rewrite Forall_forall in F2.
+      specialize (F2 _ Hx). unfold mir in *. lra. }
+    assert (F1' : Forall (fun y => mr tm < y) (rev (map mr l1))).
+    { rewrite Forall_forall in *. intros y Hy. apply in_rev in Hy. apply In_map_mir in Hy.
+      specialize (F1 _ Hy). unfold mir in *. lra. }
+    rewrite Em. rewrite E.
+    rewrite (prev_of_split (mr tm) _ _ L2), (next_of_split (mr tm) _ _ L2).
+    rewrite (prev_of_stop (mr tm) _ _ F1'), (next_of_hd (mr tm) _ F1').
+    rewrite (prev_of_split tm _ _ L1), (next_of_split tm _ _ L1).
+    rewrite (prev_of_stop tm _ _ F2), (next_of_hd tm _ F2).
+    rewrite rev_involutive. split.
+    - apply (hdo_map mr l2 None).
+    - rewrite <- map_rev. apply (hdo_map mr (rev l1) None).
+  Qed.
+
+  Lemma contrib_mirror u w tm t : ssorted u -> ~ In tm u ->
+    contrib ROps ts te (mtr u) (mtr w) (mr tm) (mr t) = contrib ROps ts te u w tm t.
+  Proof.
+    intros S NI. unfold contrib. cbv zeta.
+    rewrite (isi_len_at_mirror_gen ts te u tm S NI), aux_of_mirror.
+    destruct (prev_next_mirror u tm S NI) as [EP EN]. rewrite EP, EN.
+    destruct (aux_of ROps ts te w) as [a0 a1]. cbn [fst snd].
+    destruct (prev_of ROps tm u None) as [p|], (next_of ROps tm u) as [n|]; cbn [option_map].
+    - f_equal. rewrite !nearest_mirror. cbn [nadd nsub nmul ndiv ROps].
+      unfold mir. f_equal; lra.
+    - rewrite nearest_mirror. reflexivity.
+    - rewrite nearest_mirror. reflexivity.
+    - reflexivity.
+  Qed.
+
+  Lemma spike_at_mirror m ri u1 u2 tm t : ssorted u1 -> ssorted u2 -> ~ In tm u1 -> ~ In tm u2 ->
+    spike_at ROps ts te m ri (mtr u1) (mtr u2) (mr tm) (mr t) = spike_at ROps ts te m ri u1 u2 tm t.
+  Proof.
+    intros S1 S2 N1 N2. unfold spike_at.
+    rewrite (contrib_mirror u1 u2 tm t S1 N1), (contrib_mirror u2 u1 tm t S2 N2). reflexivity.
+  Qed.
+
+  Theorem spike_spec_mirror : forall s1 s2 m ri, valid ts te s1 -> valid ts te s2 ->
+    spike_spec ROps (mirror_train ts te s1) (mirror_train ts te s2) ts te m ri
+    = (rev (map (mir ts te) (fst (fst (spike_spec ROps s1 s2 ts te m ri)))),
+       rev (snd (spike_spec ROps s1 s2 ts te m ri)),
+       rev (snd (fst (spike_spec ROps s1 s2 ts te m ri)))).
+  Proof.
+    intros s1 s2 m ri V1 V2. unfold spike_spec. cbv zeta. cbn [fst snd].
+    rewrite breaks_mirror, !eff_mirror, pieces_mirror, !map_rev, !map_map.
+    assert (P : forall a b, In (a, b) (pieces (breaks ROps ts te s1 s2)) -> forall t,
+              spike_at ROps ts te m ri (mtr (eff ts te s1)) (mtr (eff ts te s2)) (mid ROps (mr b, mr a)) (mr t)
+              = spike_at ROps ts te m ri (eff ts te s1) (eff ts te s2) (mid ROps (a, b)) t).
+    { intros a b Hp t.
+      pose proof (Lem_Transform.breaks_sorted ts te s1 s2 (proj1 V1)) as SB.
+      destruct (pieces_sorted_gap _ a b SB Hp) as [Hab Hgap].
+      assert (Hmid : a < mid ROps (a, b) < b).
+      { unfold mid. rewrite R_n2. cbn [fst snd nadd ndiv ROps]. lra. }
+      rewrite mid_mirror. apply spike_at_mirror.
+      - apply eff_sorted; exact V1.
+      - apply eff_sorted; exact V2.
+      - intros Hi. apply (eff_in_breaks ts te s1 s2 s1) in Hi;
+          [|exact V1|intros y Hy; apply in_or_app; left; exact Hy].
+        destruct (Hgap _ Hi); lra.
+      - intros Hi. apply (eff_in_breaks ts te s1 s2 s2) in Hi;
+          [|exact V2|intros y Hy; apply in_or_app; right; exact Hy].
+        destruct (Hgap _ Hi); lra. }
+    f_equal; [f_equal|]; f_equal; apply map_ext_in; intros [a b] Hp; cbn [fst snd]; apply P; exact Hp.
+  Qed.
+End MirrorSpike.
+
+Theorem spike_profile_mirror : forall s1 s2 ts te m ri, valid ts te s1 -> valid ts te s2 ->
+  spike_profile_py ROps (eff ts te (mirror_train ts te s1)) (eff ts te (mirror_train ts te s2)) ts te m ri
+  = (rev (map (mir ts te) (fst (fst (spike_profile_py ROps (eff ts te s1) (eff ts te s2) ts te m ri)))),
+     rev (snd (spike_profile_py ROps (eff ts te s1) (eff ts te s2) ts te m ri)),
+     rev (snd (fst (spike_profile_py ROps (eff ts te s1) (eff ts te s2) ts te m ri)))).
+Proof.
+  intros s1 s2 ts te m ri V1 V2.
+  rewrite (spike_profile_spec _ _ _ _ m ri (valid_mirror ts te s1 V1) (valid_mirror ts te s2 V2)).
+  rewrite (spike_profile_spec _ _ _ _ m ri V1 V2).
+  apply spike_spec_mirror; assumption.
+Qed.
+
+(* ================================================================== *)
+(* 6'. consequence: the integrals of the ISI and SPIKE profiles of the  *)
+(*     mirrored trains equal those of the original trains              *)
+
+Lemma pieces_length (bs : list R) : length (pieces bs) = pred (length bs).
+Proof.
+  induction bs as [|a r IH]; [reflexivity|].
+  destruct r as [|b r']; [reflexivity|].
+  change (pieces (a :: b :: r')) with ((a, b) :: pieces (b :: r')).
+  cbn [length pred] in *. rewrite IH. reflexivity.
+Qed.
+
+Lemma breaks_length ts te s1 s2 :
+  length (breaks ROps ts te s1 s2) = S (length (pieces (breaks ROps ts te s1 s2))).
+Proof.
+  rewrite pieces_length. unfold breaks. cbn [length]. rewrite app_length. cbn [length]. lia.
+Qed.
+
+Theorem isi_integral_mirror : forall s1 s2 ts te m, valid ts te s1 -> valid ts te s2 ->
+  let P  := isi_profile_py ROps (eff ts te s1) (eff ts te s2) ts te m in
+  let P' := isi_profile_py ROps (eff ts te (mirror_train ts te s1)) (eff ts te (mirror_train ts te s2)) ts te m in
+  pwc_int_all ROps (fst P') (snd P') = pwc_int_all ROps (fst P) (snd P).
+Proof.
+  intros s1 s2 ts te m V1 V2 P P'. unfold P'. rewrite (isi_profile_mirror s1 s2 ts te m V1 V2).
+  fold P. cbn [fst snd]. apply pwc_int_all_mirror.
+  unfold P. rewrite (isi_profile_spec m V1 V2). unfold isi_spec. cbv zeta. cbn [fst snd].
+  rewrite map_length. apply breaks_length.
+Qed.
+
+Theorem spike_integral_mirror : forall s1 s2 ts te m ri, valid ts te s1 -> valid ts te s2 ->
+  let P  := spike_profile_py ROps (eff ts te s1) (eff ts te s2) ts te m ri in
+  let P' := spike_profile_py ROps (eff ts te (mirror_train ts te s1)) (eff ts te (mirror_train ts te s2)) ts te m ri in
+  pwl_int_all ROps (fst (fst P')) (snd (fst P')) (snd P')
+  = pwl_int_all ROps (fst (fst P)) (snd (fst P)) (snd P).
+Proof.
+  intros s1 s2 ts te m ri V1 V2 P P'. unfold P'. rewrite (spike_profile_mirror s1 s2 ts te m ri V1 V2).
+  fold P. cbn [fst snd]. apply pwl_int_all_mirror;
+  unfold P; rewrite (spike_profile_spec _ _ _ _ m ri V1 V2); unfold spike_spec; cbv zeta; cbn [fst snd];
+  rewrite ?map_length; [apply breaks_length | reflexivity].
+Qed.
+
+Print Assumptions spike_profile_shift.
+Print Assumptions spike_profile_scale.
+Print Assumptions isi_profile_mirror.
+Print Assumptions spike_profile_mirror.
+Print Assumptions sync_profile_mirror.
+Print Assumptions single_mirror.
+Print Assumptions spike_integral_mirror.
